@@ -47,7 +47,7 @@ public:
   std::function<void(void*)> on_thread_create;
   // optional replacement of run(): must fill `cur` (e.g. by running the execution in a forked child)
   std::function<void(const std::vector<int>&, const std::vector<std::pair<int, int> >&)> custom_run;   // called before every decision (binding dumps)
-  int preempt_bound = 0, spurious_budget = 0;
+  int preempt_bound = 0, spurious_budget = 0, yield_after_unlock = 0;
   long nproc = 1, max_steps = 20000;
   unsigned long long max_schedules = 0;   // 0 = unlimited
   bool record_events = false;
@@ -116,7 +116,7 @@ public:
     cur.points.clear(); cur.events.clear(); cur.record_events = record_events;
     vs_config c; memset(&c, 0, sizeof c);
     c.choose = choose_cb; c.ctx = this; c.on_event = event_cb; c.shared_hash = hash_cb; c.on_thread_create = create_cb;
-    c.spurious_budget = spurious_budget; c.max_steps = max_steps; c.nproc = nproc;
+    c.spurious_budget = spurious_budget; c.yield_after_unlock = yield_after_unlock; c.max_steps = max_steps; c.nproc = nproc;
     vs_run(&c, body_cb, this);
     stats.schedules++;
     stats.choice_points += cur.points.size();
